@@ -1128,6 +1128,8 @@ func specEntryStruct(e *p4.TableEntry) bool {
 // table has ternary/range fields.
 
 //@ func (t *P4rtTranslator) buildUplinkSessionsEntry(pdr pdr, sessMeterIdx uint32) (entry *p4.TableEntry, err error)
+//@   freshwrites p4.TableEntry, p4.TableAction, p4.TableAction_Action, p4.Action
+//@   defines err == nil ==> gfield("p4e.kind", refOf(entry)) == 1 && gfield("p4e.n3", refOf(entry)) == uint64(pdr.tunnelIP4Dst) && gfield("p4e.teid", refOf(entry)) == uint64(pdr.tunnelTEID) && gfield("p4e.meter", refOf(entry)) == uint64(sessMeterIdx)
 //@   requires t != nil
 //@   requires C16.up.meteridx: int64(sessMeterIdx) < oracleP4MeterSize(p4constants.MeterPreQosPipeSessionMeter)
 //@   ensures C04.sessup.result: (err == nil) <==> (entry != nil)
@@ -1136,6 +1138,8 @@ func specEntryStruct(e *p4.TableEntry) bool {
 //@   ensures C04.sessup.params: err == nil ==> glen("p4p") == old[int](glen("p4p"))+1 && specP4ParamLogged(gentry("p4p", old[int](glen("p4p"))), specEntryAction(entry), "session_meter_idx", uint64(sessMeterIdx))
 
 //@ func (t *P4rtTranslator) buildDownlinkSessionsEntry(pdr pdr, sessMeterIdx uint32, tunnelPeerID uint8, needsBuffering bool) (entry *p4.TableEntry, err error)
+//@   freshwrites p4.TableEntry, p4.TableAction, p4.TableAction_Action, p4.Action
+//@   defines err == nil ==> gfield("p4e.kind", refOf(entry)) == 2 && gfield("p4e.ue", refOf(entry)) == uint64(pdr.ueAddress) && gfield("p4e.buff", refOf(entry)) == specB2U(needsBuffering) && gfield("p4e.peer", refOf(entry)) == uint64(tunnelPeerID) && gfield("p4e.meter", refOf(entry)) == uint64(sessMeterIdx)
 //@   requires t != nil
 //@   requires C16.down.meteridx: int64(sessMeterIdx) < oracleP4MeterSize(p4constants.MeterPreQosPipeSessionMeter)
 //@   ensures C04.sessdown.result: (err == nil) <==> (entry != nil)
@@ -1146,6 +1150,8 @@ func specEntryStruct(e *p4.TableEntry) bool {
 //@   ensures C04.sessdown.fwd: err == nil && !needsBuffering ==> glen("p4p") == old[int](glen("p4p"))+2 && specP4ParamLogged(gentry("p4p", old[int](glen("p4p"))), specEntryAction(entry), "tunnel_peer_id", uint64(tunnelPeerID)) && specP4ParamLogged(gentry("p4p", old[int](glen("p4p"))+1), specEntryAction(entry), "session_meter_idx", uint64(sessMeterIdx))
 
 //@ func (t *P4rtTranslator) buildUplinkTerminationsEntry(pdr pdr, appMeterIdx uint32, shouldDrop bool, internalAppID uint8, tc uint8, relatedQER qer) (entry *p4.TableEntry, err error)
+//@   freshwrites p4.TableEntry, p4.TableAction, p4.TableAction_Action, p4.Action
+//@   defines err == nil ==> gfield("p4e.kind", refOf(entry)) == 3 && gfield("p4e.ue", refOf(entry)) == uint64(pdr.ueAddress) && gfield("p4e.app", refOf(entry)) == uint64(internalAppID) && gfield("p4e.drop", refOf(entry)) == specB2U(shouldDrop || relatedQER.ulStatus == ie.GateStatusClosed) && gfield("p4e.tc", refOf(entry)) == uint64(tc) && gfield("p4e.meter", refOf(entry)) == uint64(appMeterIdx) && gfield("p4e.ctr", refOf(entry)) == uint64(pdr.ctrID)
 //@   requires t != nil
 //@   requires C16.termup.envelope: tc <= 3 && int64(appMeterIdx) < oracleP4MeterSize(p4constants.MeterPreQosPipeAppMeter) && int64(pdr.ctrID) < oracleP4CounterSize(p4constants.CounterPreQosPipePreQosCounter)
 //@   ensures C04.termup.result: (err == nil) <==> (entry != nil)
@@ -1154,6 +1160,8 @@ func specEntryStruct(e *p4.TableEntry) bool {
 //@   ensures C04.termup.fwd: err == nil && !(shouldDrop || relatedQER.ulStatus == ie.GateStatusClosed) ==> specEntryShape(entry, 3) && entry.TableId == p4constants.TablePreQosPipeTerminationsUplink && specEntryAction(entry).ActionId == p4constants.ActionPreQosPipeUplinkTermFwd && glen("p4p") == old[int](glen("p4p"))+3 && specP4ParamLogged(gentry("p4p", old[int](glen("p4p"))), specEntryAction(entry), "tc", uint64(tc)) && specP4ParamLogged(gentry("p4p", old[int](glen("p4p"))+1), specEntryAction(entry), "app_meter_idx", uint64(appMeterIdx)) && specP4ParamLogged(gentry("p4p", old[int](glen("p4p"))+2), specEntryAction(entry), "ctr_idx", uint64(pdr.ctrID))
 
 //@ func (t *P4rtTranslator) buildDownlinkTerminationsEntry(pdr pdr, appMeterIdx uint32, relatedFAR far, internalAppID uint8, qfi uint8, tc uint8, relatedQER qer) (entry *p4.TableEntry, err error)
+//@   freshwrites p4.TableEntry, p4.TableAction, p4.TableAction_Action, p4.Action
+//@   defines err == nil ==> gfield("p4e.kind", refOf(entry)) == 4 && gfield("p4e.ue", refOf(entry)) == uint64(pdr.ueAddress) && gfield("p4e.app", refOf(entry)) == uint64(internalAppID) && gfield("p4e.drop", refOf(entry)) == specB2U(relatedFAR.applyAction&ActionDrop != 0 || relatedQER.dlStatus == ie.GateStatusClosed) && gfield("p4e.teid", refOf(entry)) == uint64(relatedFAR.tunnelTEID) && gfield("p4e.qfi", refOf(entry)) == uint64(qfi) && gfield("p4e.tc", refOf(entry)) == uint64(tc) && gfield("p4e.meter", refOf(entry)) == uint64(appMeterIdx) && gfield("p4e.ctr", refOf(entry)) == uint64(pdr.ctrID)
 //@   requires t != nil
 //@   requires C16.termdown.envelope: tc <= 3 && qfi < 64 && int64(appMeterIdx) < oracleP4MeterSize(p4constants.MeterPreQosPipeAppMeter) && int64(pdr.ctrID) < oracleP4CounterSize(p4constants.CounterPreQosPipePreQosCounter)
 //@   ensures C04.termdown.result: (err == nil) <==> (entry != nil)
@@ -1162,6 +1170,7 @@ func specEntryStruct(e *p4.TableEntry) bool {
 //@   ensures C04.termdown.fwd: err == nil && !(relatedFAR.applyAction&ActionDrop != 0 || relatedQER.dlStatus == ie.GateStatusClosed) ==> specEntryShape(entry, 5) && entry.TableId == p4constants.TablePreQosPipeTerminationsDownlink && specEntryAction(entry).ActionId == p4constants.ActionPreQosPipeDownlinkTermFwd && glen("p4p") == old[int](glen("p4p"))+5 && specP4ParamLogged(gentry("p4p", old[int](glen("p4p"))), specEntryAction(entry), "teid", uint64(relatedFAR.tunnelTEID)) && specP4ParamLogged(gentry("p4p", old[int](glen("p4p"))+1), specEntryAction(entry), "qfi", uint64(qfi)) && specP4ParamLogged(gentry("p4p", old[int](glen("p4p"))+2), specEntryAction(entry), "tc", uint64(tc)) && specP4ParamLogged(gentry("p4p", old[int](glen("p4p"))+3), specEntryAction(entry), "app_meter_idx", uint64(appMeterIdx)) && specP4ParamLogged(gentry("p4p", old[int](glen("p4p"))+4), specEntryAction(entry), "ctr_idx", uint64(pdr.ctrID))
 
 //@ func (t *P4rtTranslator) BuildGTPTunnelPeerTableEntry(tunnelPeerID uint8, tunnelParams tunnelParams) (entry *p4.TableEntry, err error)
+//@   freshwrites p4.TableEntry, p4.TableAction, p4.TableAction_Action, p4.Action
 //@   requires t != nil
 //@   ensures C04.peer.result: (err == nil) <==> (entry != nil)
 //@   ensures C16.peer.shape: err == nil ==> specEntryShape(entry, 3) && !allocated(entry) && entry.TableId == p4constants.TablePreQosPipeTunnelPeers && specEntryAction(entry).ActionId == p4constants.ActionPreQosPipeLoadTunnelParam
@@ -1174,6 +1183,7 @@ func specEntryStruct(e *p4.TableEntry) bool {
 //@   ensures C16.meter.entry: entry != nil && !allocated(entry) && entry.MeterId == meterID && entry.Index != nil && entry.Index.Index == int64(cellID) && entry.Config == config
 
 //@ func (t *P4rtTranslator) BuildInterfaceTableEntry(ipNet *net.IPNet, sliceID uint8, isCore bool) (entry *p4.TableEntry, err error)
+//@   freshwrites p4.TableEntry, p4.TableAction, p4.TableAction_Action, p4.Action
 //@   requires t != nil && ipNet != nil
 //@   requires C16.iface.envelope: sliceID <= 15 && len(ipNet.IP) == 4 && len(ipNet.Mask) == 4 && 1 <= specMaskOnes(ipNet.Mask)
 //@   ensures C04.iface.result: (err == nil) <==> (entry != nil)
@@ -1217,6 +1227,7 @@ func specAppPorts(p pdr) portRange {
 }
 
 //@ func (t *P4rtTranslator) BuildApplicationsTableEntry(pdr pdr, sliceID uint8, internalAppID uint8) (entry *p4.TableEntry, err error)
+//@   freshwrites p4.TableEntry, p4.TableAction, p4.TableAction_Action, p4.Action
 //@   requires t != nil
 //@   requires C16.app.envelope: sliceID <= 15 && pdr.precedence <= 65534 && specAppPorts(pdr).low <= specAppPorts(pdr).high
 //@   ensures C04.app.result: (err == nil) <==> (entry != nil)
@@ -1228,6 +1239,14 @@ func specAppPorts(p pdr) portRange {
 //@   ensures C04.app.ip: err == nil && specAppMask(pdr) != 0 ==> gfieldS("p4f.name", gentry("p4f", old[int](glen("p4f"))+1)) == "app_ip_addr" && gfield("p4f.kind", gentry("p4f", old[int](glen("p4f"))+1)) == 2 && gfield("p4f.val", gentry("p4f", old[int](glen("p4f"))+1)) == uint64(specAppIP(pdr))
 //@   ensures C04.app.ports: err == nil && !specAppPorts(pdr).isWildcardMatch() ==> specP4FieldLogged(gentry("p4f", old[int](glen("p4f"))+1+specB2I(specAppMask(pdr) != 0)), entry, "app_l4_port", 4, uint64(specAppPorts(pdr).low), uint64(specAppPorts(pdr).high))
 //@   ensures C04.app.proto: err == nil && pdr.appFilter.proto != 0 && pdr.appFilter.protoMask != 0 ==> specP4FieldLogged(gentry("p4f", glen("p4f")-1), entry, "app_ip_proto", 3, uint64(pdr.appFilter.proto), uint64(pdr.appFilter.protoMask))
+
+func specB2U(b bool) uint64 {
+	if b {
+		return 1
+	}
+
+	return 0
+}
 
 func specB2I(b bool) int {
 	if b {
@@ -1487,6 +1506,8 @@ func specMetersInv(up4 *UP4, appSize, sessSize int64) bool {
 //@   requires C16.tablewrite.shape: forall k int :: 0 <= k && k < len(entries) ==> specEntryStruct(entries[k]) && oracleP4HasTable(entries[k].TableId) && oracleP4Allowed(entries[k].TableId, specEntryAction(entries[k]).ActionId) && (oracleP4NeedsPriority(entries[k].TableId) == (entries[k].Priority != 0))
 //@   appends p4table
 //@   ensures gfield("p4table.method", gentry("p4table", glen("p4table")-1)) == uint64(methodType) && gfield("p4table.ptr", gentry("p4table", glen("p4table")-1)) == uint64(sliceRef(entries)) && gfield("p4table.off", gentry("p4table", glen("p4table")-1)) == uint64(lo(entries)) && gfield("p4table.n", gentry("p4table", glen("p4table")-1)) == uint64(len(entries))
+//@   ensures typeIs[*P4RuntimeError](err) ==> dynRef(err) != 0
+//@   ensures gfield("p4table.ok", gentry("p4table", glen("p4table")-1)) == specB2U(err == nil) && gfield("p4table.p4err", gentry("p4table", glen("p4table")-1)) == specB2U(typeIs[*P4RuntimeError](err)) && gfield("p4table.err", gentry("p4table", glen("p4table")-1)) == uint64(dynRef(err))
 
 // specTableEntry: the k-th TableEntry of the write logged as entry e of "p4table".
 func specTableEntry(e int, k int) *p4.TableEntry {
@@ -1518,6 +1539,15 @@ func specPeersInv(up4 *UP4) bool {
 		})
 }
 
+// specBytesFrame: byte arrays that existed before the call, other than the array of the given
+// (old) queue, keep their contents - the queues of free IDs are byte slices, and appending to one
+// writes into its own array or into a new one.
+func specBytesFrame(oldQueue int) bool {
+	return forall(func(r, a int) bool {
+		return implies(r != oldQueue && old(func() bool { return live(r) }), elemAt[uint8](r, a) == old(func() uint8 { return elemAt[uint8](r, a) }))
+	})
+}
+
 func specPeerParams(up4 *UP4, f far) tunnelParams {
 	return tunnelParams{tunnelIP4Src: ip2int(up4.accessIP.IP), tunnelIP4Dst: f.tunnelIP4Dst, tunnelPort: f.tunnelPort}
 }
@@ -1525,14 +1555,15 @@ func specPeerParams(up4 *UP4, f far) tunnelParams {
 func specPeerEnv(up4 *UP4) bool {
 	// the N3 address bytes do not share storage with the byte-typed ID queues
 	return up4 != nil && up4.accessIP != nil && len(up4.accessIP.IP) == 4 && up4.p4RtTranslator != nil && up4.p4client != nil &&
-		!sameArray([]byte(up4.accessIP.IP), up4.tunnelPeerIDsPool) && !sameArray([]byte(up4.accessIP.IP), up4.applicationIDsPool)
+		!sameArray([]byte(up4.accessIP.IP), up4.tunnelPeerIDsPool) && !sameArray([]byte(up4.accessIP.IP), up4.applicationIDsPool) &&
+		!sameArray(up4.tunnelPeerIDsPool, up4.applicationIDsPool)
 }
 
 //@ func (up4 *UP4) addOrUpdateGTPTunnelPeer(far far) (err error)
 //@   requires specPeerEnv(up4) && !held(&up4.tunnelPeerMu)
 //@   requires specPeersInv(up4)
 //@   ensures C11.peer.add.lock: !held(&up4.tunnelPeerMu)
-//@   ensures C15.peer.add.inv: specPeersInv(up4) && specPeerEnv(up4) && ip2int(up4.accessIP.IP) == old[uint32](ip2int(up4.accessIP.IP))
+//@   ensures C15.peer.add.inv: specPeersInv(up4) && specPeerEnv(up4) && specBytesFrame(old[int](sliceRef(up4.tunnelPeerIDsPool))) && (sliceRef(up4.tunnelPeerIDsPool) == old[int](sliceRef(up4.tunnelPeerIDsPool)) || !allocated(up4.tunnelPeerIDsPool))
 //@   ensures C15.peer.add.keep: forall k tunnelParams, r tnlPeerReference :: old[bool](has(up4.tunnelPeerIDs, k) && setHas(up4.tunnelPeerIDs[k].usedBy, r)) ==> has(up4.tunnelPeerIDs, k) && setHas(up4.tunnelPeerIDs[k].usedBy, r)
 //@   ensures C15.peer.add.ids: forall k tunnelParams :: old[bool](has(up4.tunnelPeerIDs, k)) ==> has(up4.tunnelPeerIDs, k) && up4.tunnelPeerIDs[k] == old[tunnelPeer](up4.tunnelPeerIDs[k])
 //@   ensures C15.peer.add.only: forall k tunnelParams :: k != specPeerParams(up4, far) ==> (has(up4.tunnelPeerIDs, k) <==> old[bool](has(up4.tunnelPeerIDs, k)))
@@ -1546,7 +1577,7 @@ func specPeerEnv(up4 *UP4) bool {
 //@   requires specPeerEnv(up4) && !held(&up4.tunnelPeerMu)
 //@   requires specPeersInv(up4)
 //@   ensures C11.peer.del.lock: !held(&up4.tunnelPeerMu)
-//@   ensures C15.peer.del.inv: specPeersInv(up4) && specPeerEnv(up4) && ip2int(up4.accessIP.IP) == old[uint32](ip2int(up4.accessIP.IP))
+//@   ensures C15.peer.del.inv: specPeersInv(up4) && specPeerEnv(up4) && specBytesFrame(old[int](sliceRef(up4.tunnelPeerIDsPool))) && (sliceRef(up4.tunnelPeerIDsPool) == old[int](sliceRef(up4.tunnelPeerIDsPool)) || !allocated(up4.tunnelPeerIDsPool))
 //@   ensures C15.peer.del.keep: forall k tunnelParams, r tnlPeerReference :: old[bool](has(up4.tunnelPeerIDs, k) && setHas(up4.tunnelPeerIDs[k].usedBy, r)) && (k != specPeerParams(up4, far) || r != tnlPeerReference{far.fseID, far.farID}) ==> has(up4.tunnelPeerIDs, k) && setHas(up4.tunnelPeerIDs[k].usedBy, r)
 //@   ensures C15.peer.del.ids: forall k tunnelParams :: has(up4.tunnelPeerIDs, k) ==> old[bool](has(up4.tunnelPeerIDs, k)) && up4.tunnelPeerIDs[k] == old[tunnelPeer](up4.tunnelPeerIDs[k])
 //@   ensures C15.peer.del.only: forall k tunnelParams :: k != specPeerParams(up4, far) ==> (has(up4.tunnelPeerIDs, k) <==> old[bool](has(up4.tunnelPeerIDs, k)))
@@ -1566,11 +1597,11 @@ func specPeerEnv(up4 *UP4) bool {
 //@   requires specPeerEnv(up4) && !held(&up4.tunnelPeerMu)
 //@   requires specPeersInv(up4)
 //@   ensures C11.peers.update.lock: !held(&up4.tunnelPeerMu)
-//@   ensures C15.peers.update.inv: specPeersInv(up4) && specPeerEnv(up4) && ip2int(up4.accessIP.IP) == old[uint32](ip2int(up4.accessIP.IP))
+//@   ensures C15.peers.update.inv: specPeersInv(up4) && specPeerEnv(up4) && specBytesFrame(old[int](sliceRef(up4.tunnelPeerIDsPool))) && (sliceRef(up4.tunnelPeerIDsPool) == old[int](sliceRef(up4.tunnelPeerIDsPool)) || !allocated(up4.tunnelPeerIDsPool))
 //@   ensures C15.peers.update.keep: forall k tunnelParams, r tnlPeerReference :: old[bool](has(up4.tunnelPeerIDs, k) && setHas(up4.tunnelPeerIDs[k].usedBy, r)) ==> has(up4.tunnelPeerIDs, k) && setHas(up4.tunnelPeerIDs[k].usedBy, r)
 //@   ensures C15.peers.update.ids: forall k tunnelParams :: old[bool](has(up4.tunnelPeerIDs, k)) ==> has(up4.tunnelPeerIDs, k) && up4.tunnelPeerIDs[k] == old[tunnelPeer](up4.tunnelPeerIDs[k])
 //@   ensures C04.peers.update.ok: err == nil ==> forall j int :: 0 <= j && j < len(fars) && fars[j].Forwards() && fars[j].dstIntf == ie.DstInterfaceAccess && fars[j].tunnelTEID != 0 ==> has(up4.tunnelPeerIDs, specPeerParams(up4, fars[j])) && setHas(up4.tunnelPeerIDs[specPeerParams(up4, fars[j])].usedBy, tnlPeerReference{fars[j].fseID, fars[j].farID})
-//@   loop 1 invariant C15.peers.update.l1.inv: specPeersInv(up4) && !held(&up4.tunnelPeerMu) && specPeerEnv(up4) && ip2int(up4.accessIP.IP) == old[uint32](ip2int(up4.accessIP.IP))
+//@   loop 1 invariant C15.peers.update.l1.inv: specPeersInv(up4) && !held(&up4.tunnelPeerMu) && specPeerEnv(up4) && specBytesFrame(old[int](sliceRef(up4.tunnelPeerIDsPool))) && (sliceRef(up4.tunnelPeerIDsPool) == old[int](sliceRef(up4.tunnelPeerIDsPool)) || !allocated(up4.tunnelPeerIDsPool))
 //@   loop 1 invariant C15.peers.update.l1.keep: forall k tunnelParams, r tnlPeerReference :: old[bool](has(up4.tunnelPeerIDs, k) && setHas(up4.tunnelPeerIDs[k].usedBy, r)) ==> has(up4.tunnelPeerIDs, k) && setHas(up4.tunnelPeerIDs[k].usedBy, r)
 //@   loop 1 invariant C15.peers.update.l1.ids: forall k tunnelParams :: old[bool](has(up4.tunnelPeerIDs, k)) ==> has(up4.tunnelPeerIDs, k) && up4.tunnelPeerIDs[k] == old[tunnelPeer](up4.tunnelPeerIDs[k])
 //@   loop 1 invariant C04.peers.update.l1.ok: forall j int :: 0 <= j && j <= rangeidx && fars[j].Forwards() && fars[j].dstIntf == ie.DstInterfaceAccess && fars[j].tunnelTEID != 0 ==> has(up4.tunnelPeerIDs, specPeerParams(up4, fars[j])) && setHas(up4.tunnelPeerIDs[specPeerParams(up4, fars[j])].usedBy, tnlPeerReference{fars[j].fseID, fars[j].farID})
@@ -1609,11 +1640,12 @@ func specAppEnvelope(up4 *UP4, p pdr) bool {
 }
 
 //@ func (up4 *UP4) addInternalApplicationIDAndGetP4rtEntry(pdr pdr) (entry *p4.TableEntry, id uint8, err error)
+//@   freshwrites p4.TableEntry, p4.TableAction, p4.TableAction_Action, p4.Action
 //@   requires up4 != nil && up4.p4RtTranslator != nil && !held(&up4.applicationMu)
 //@   requires specAppsInv(up4)
 //@   requires C16.app.add.envelope: specAppEnvelope(up4, pdr)
 //@   ensures C11.app.add.lock: !held(&up4.applicationMu)
-//@   ensures C15.app.add.inv: specAppsInv(up4)
+//@   ensures C15.app.add.inv: specAppsInv(up4) && specBytesFrame(old[int](sliceRef(up4.applicationIDsPool))) && (sliceRef(up4.applicationIDsPool) == old[int](sliceRef(up4.applicationIDsPool)) || !allocated(up4.applicationIDsPool))
 //@   ensures C15.app.add.keep: forall k up4ApplicationFilter, r internalAppReference :: old[bool](has(up4.applicationIDs, k) && setHas(up4.applicationIDs[k].usedBy, r)) ==> has(up4.applicationIDs, k) && setHas(up4.applicationIDs[k].usedBy, r)
 //@   ensures C15.app.add.ids: forall k up4ApplicationFilter :: old[bool](has(up4.applicationIDs, k)) ==> has(up4.applicationIDs, k) && up4.applicationIDs[k] == old[internalApp](up4.applicationIDs[k])
 //@   ensures C15.app.add.only: forall k up4ApplicationFilter :: k != toUP4ApplicationFilter(pdr) ==> (has(up4.applicationIDs, k) <==> old[bool](has(up4.applicationIDs, k)))
@@ -1624,11 +1656,12 @@ func specAppEnvelope(up4 *UP4, p pdr) bool {
 //@   ensures C15.app.add.others: gsOthersSame("set", old[int](dynRef(up4.applicationIDs[toUP4ApplicationFilter(pdr)].usedBy)), 0)
 
 //@ func (up4 *UP4) removeInternalApplicationIDAndGetP4rtEntry(pdr pdr) (entry *p4.TableEntry, id uint8)
+//@   freshwrites p4.TableEntry, p4.TableAction, p4.TableAction_Action, p4.Action
 //@   requires up4 != nil && up4.p4RtTranslator != nil && !held(&up4.applicationMu)
 //@   requires specAppsInv(up4)
 //@   requires C16.app.del.envelope: specAppEnvelope(up4, pdr)
 //@   ensures C11.app.del.lock: !held(&up4.applicationMu)
-//@   ensures C15.app.del.inv: specAppsInv(up4)
+//@   ensures C15.app.del.inv: specAppsInv(up4) && specBytesFrame(old[int](sliceRef(up4.applicationIDsPool))) && (sliceRef(up4.applicationIDsPool) == old[int](sliceRef(up4.applicationIDsPool)) || !allocated(up4.applicationIDsPool))
 //@   ensures C15.app.del.keep: forall k up4ApplicationFilter, r internalAppReference :: old[bool](has(up4.applicationIDs, k) && setHas(up4.applicationIDs[k].usedBy, r)) && (k != toUP4ApplicationFilter(pdr) || r != internalAppReference{pdr.fseID, pdr.pdrID}) ==> has(up4.applicationIDs, k) && setHas(up4.applicationIDs[k].usedBy, r)
 //@   ensures C15.app.del.ids: forall k up4ApplicationFilter :: has(up4.applicationIDs, k) ==> old[bool](has(up4.applicationIDs, k)) && up4.applicationIDs[k] == old[internalApp](up4.applicationIDs[k])
 //@   ensures C15.app.del.only: forall k up4ApplicationFilter :: k != toUP4ApplicationFilter(pdr) ==> (has(up4.applicationIDs, k) <==> old[bool](has(up4.applicationIDs, k)))
@@ -1636,3 +1669,119 @@ func specAppEnvelope(up4 *UP4, p pdr) bool {
 //@   ensures C04.app.del.entry: entry != nil ==> !has(up4.applicationIDs, toUP4ApplicationFilter(pdr)) && old[bool](has(up4.applicationIDs, toUP4ApplicationFilter(pdr)))
 //@   ensures C16.app.del.shape: entry != nil ==> specEntryShape(entry, 1) && !allocated(entry) && entry.TableId == p4constants.TablePreQosPipeApplications && entry.Priority == int32(65535-pdr.precedence)
 //@   ensures C15.app.del.others: gsOthersSame("set", old[int](dynRef(up4.applicationIDs[toUP4ApplicationFilter(pdr)].usedBy)), 0)
+
+// ---------------------------------------------------------------------------
+// C04 / C15 / C16: per-PDR programming (modifyUP4ForwardingConfiguration)
+// ---------------------------------------------------------------------------
+
+// p4e.* (ghost attributes of a built table entry, indexed by the entry object): the arguments the
+// entry was built from - kind 1/2 sessions uplink/downlink, 3/4 terminations uplink/downlink. The
+// builders' own contracts prove that the fields and parameters written are these arguments.
+
+func specFirstFarIn(fars []far, j int, id uint32) bool {
+	return lo(fars) <= j && j < hi(fars) && at(fars, j).farID == id &&
+		forall(func(i int) bool { return implies(lo(fars) <= i && i < j, at(fars, i).farID != id) })
+}
+
+func specNoFarIn(fars []far, id uint32) bool {
+	return forall(func(i int) bool { return implies(lo(fars) <= i && i < hi(fars), at(fars, i).farID != id) })
+}
+
+//@ func findRelatedFAR(pdr pdr, fars []far) (f far, err error)
+//@   logical j int
+//@   ensures C04.relfar.found: specFirstFarIn(fars, j, pdr.farID) ==> err == nil && f == at(fars, j)
+//@   ensures C04.relfar.none: specNoFarIn(fars, pdr.farID) ==> err != nil
+//@   ensures C04.relfar.member: err == nil ==> f.farID == pdr.farID && exists i int :: lo(fars) <= i && i < hi(fars) && f == at(fars, i)
+//@   loop 1 invariant C04.relfar.l1: rangeidx+1 <= len(fars) && (forall i int :: lo(fars) <= i && i < lo(fars)+rangeidx+1 ==> at(fars, i).farID != pdr.farID)
+
+func specFirstQerIn(qers []qer, j int, id uint32) bool {
+	return lo(qers) <= j && j < hi(qers) && at(qers, j).qerID == id &&
+		forall(func(i int) bool { return implies(lo(qers) <= i && i < j, at(qers, i).qerID != id) })
+}
+
+func specNoQerIn(qers []qer, id uint32) bool {
+	return forall(func(i int) bool { return implies(lo(qers) <= i && i < hi(qers), at(qers, i).qerID != id) })
+}
+
+//@ func findRelatedApplicationQER(pdr pdr, qers []qer) (q qer, err error)
+//@   logical j int
+//@   ensures C04.relqer.found: len(pdr.qerIDList) != 0 && specFirstQerIn(qers, j, pdr.qerIDList[0]) ==> err == nil && q == at(qers, j)
+//@   ensures C04.relqer.none: len(pdr.qerIDList) == 0 || specNoQerIn(qers, pdr.qerIDList[0]) ==> err != nil && q == qer{}
+//@   ensures C04.relqer.member: err == nil ==> len(pdr.qerIDList) != 0 && q.qerID == pdr.qerIDList[0] && exists i int :: lo(qers) <= i && i < hi(qers) && q == at(qers, i)
+//@   loop 1 invariant C04.relqer.l1: rangeidx+1 <= len(qers) && (len(pdr.qerIDList) != 0 ==> forall i int :: lo(qers) <= i && i < lo(qers)+rangeidx+1 ==> at(qers, i).qerID != pdr.qerIDList[0])
+
+// specTC: the traffic class configured for a QFI, the default class when the QFI is not mapped.
+func specTC(up4 *UP4, qfi uint8) uint8 {
+	if tc, ok := up4.conf.QFIToTC[qfi]; ok {
+		return tc
+	}
+
+	return up4.conf.DefaultTC
+}
+
+// specConfEnvelope (C16): slice ID and traffic classes of the configuration fit the pipeline.
+func specConfEnvelope(up4 *UP4) bool {
+	return up4.conf.SliceID <= 15 && up4.conf.DefaultTC <= 3 &&
+		forall(func(q uint8) bool { return implies(has(up4.conf.QFIToTC, q), up4.conf.QFIToTC[q] <= 3) })
+}
+
+// specRulesEnvelope (C16): what the rules handed to the plug-in satisfy - counter cells inside the
+// counter array (they come from allocateCounterID), ordered application port ranges (the flow
+// description parser, C08), spec-valid 6-bit QFIs.
+func specRulesEnvelope(pdrs []pdr, qers []qer, ctrs int64) bool {
+	return forall(func(i int) bool {
+		return implies(lo(pdrs) <= i && i < hi(pdrs), int64(at(pdrs, i).ctrID) < ctrs && specAppPorts(at(pdrs, i)).low <= specAppPorts(at(pdrs, i)).high)
+	}) && forall(func(i int) bool { return implies(lo(qers) <= i && i < hi(qers), at(qers, i).qfi < 64) })
+}
+
+// specWriteTolerated: the logged table write succeeded, or failed with a P4Runtime batch error that
+// carries per-entry statuses, all of them OK / ALREADY_EXISTS.
+func specWriteTolerated(e int) bool {
+	return gfield("p4table.ok", e) == 1 || (gfield("p4table.p4err", e) == 1 &&
+		len(ptrAt[P4RuntimeError](int(gfield("p4table.err", e))).errors) > 0 &&
+		forall(func(i int) bool {
+			return implies(lo(ptrAt[P4RuntimeError](int(gfield("p4table.err", e))).errors) <= i && i < hi(ptrAt[P4RuntimeError](int(gfield("p4table.err", e))).errors),
+				at(ptrAt[P4RuntimeError](int(gfield("p4table.err", e))).errors, i).GetCanonicalCode() == 6 || at(ptrAt[P4RuntimeError](int(gfield("p4table.err", e))).errors, i).GetCanonicalCode() == 0)
+		}))
+}
+
+// specLastTerm: the terminations entry (last entry) of the table write logged as e.
+func specLastTerm(e int) int {
+	return refOf(specTableEntry(e, int(gfield("p4table.n", e))-1))
+}
+
+// specTermOfPDR (C04): the terminations entry written for PDR p carries the traffic class configured
+// for the QFI of p's application QER (and, downlink, that QFI and the TEID of p's FAR).
+func specTermOfPDR(up4 *UP4, t int, p pdr, fars []far, qers []qer) bool {
+	return (gfield("p4e.kind", t) == 3 || gfield("p4e.kind", t) == 4) && (gfield("p4e.kind", t) == 3) == (p.srcIface == access) &&
+		gfield("p4e.ctr", t) == uint64(p.ctrID) &&
+		forall(func(j int) bool {
+			return implies(len(p.qerIDList) != 0 && specFirstQerIn(qers, j, p.qerIDList[0]),
+				gfield("p4e.tc", t) == uint64(specTC(up4, at(qers, j).qfi)) && implies(gfield("p4e.kind", t) == 4, gfield("p4e.qfi", t) == uint64(at(qers, j).qfi)))
+		}) &&
+		implies((len(p.qerIDList) == 0 || specNoQerIn(qers, p.qerIDList[0])) && gfield("p4e.kind", t) == 4, gfield("p4e.qfi", t) == DefaultQFI) &&
+		forall(func(j int) bool {
+			return implies(specFirstFarIn(fars, j, p.farID) && gfield("p4e.kind", t) == 4,
+				gfield("p4e.teid", t) == uint64(at(fars, j).tunnelTEID))
+		})
+}
+
+func specModifyEnv(up4 *UP4) bool {
+	return specPeerEnv(up4) && !held(&up4.tunnelPeerMu) && !held(&up4.applicationMu) && up4.fseidToUEAddr != nil
+}
+
+//@ func (up4 *UP4) modifyUP4ForwardingConfiguration(pdrs []pdr, allFARs []far, qers []qer, methodType p4.Update_Type) (err error)
+//@   requires specModifyEnv(up4)
+//@   requires specMetersInv(up4, specAppCells(), specSessCells()) && specPeersInv(up4) && specAppsInv(up4)
+//@   requires C16.modify.envelope: specConfEnvelope(up4) && specRulesEnvelope(pdrs, qers, specCounterCells())
+//@   ensures C11.modify.locks: !held(&up4.tunnelPeerMu) && !held(&up4.applicationMu)
+//@   ensures C15.modify.inv: specAppsInv(up4)
+//@   ensures C15.modify.reject: err == nil ==> forall k int :: old[int](glen("p4table")) <= k && k < glen("p4table") ==> specWriteTolerated(gentry("p4table", k))
+//@   ensures C04.modify.count: err == nil ==> glen("p4table") == old[int](glen("p4table"))+len(pdrs)
+//@   ensures C04.modify.method: forall k int :: old[int](glen("p4table")) <= k && k < glen("p4table") ==> gfield("p4table.method", gentry("p4table", k)) == uint64(methodType)
+//@   loop 1 invariant C04.modify.l1.env: specModifyEnv(up4) && specAppsInv(up4)
+//@   loop 1 invariant C15.modify.l1.reject: forall k int :: old[int](glen("p4table")) <= k && k < glen("p4table") ==> specWriteTolerated(gentry("p4table", k))
+//@   loop 1 invariant C04.modify.l1.count: glen("p4table") == old[int](glen("p4table"))+rangeidx+1
+//@   loop 1 invariant C04.modify.l1.method: forall k int :: old[int](glen("p4table")) <= k && k < glen("p4table") ==> gfield("p4table.method", gentry("p4table", k)) == uint64(methodType)
+//@   loop 1 invariant C04.modify.l1.term: rangeidx >= 0 ==> specTermOfPDR(up4, specLastTerm(gentry("p4table", glen("p4table")-1)), pdrs[rangeidx], allFARs, qers)
+//@   loop 2 invariant C15.modify.l2.tolerated: forall i int :: lo(p4Error.errors) <= i && i < lo(p4Error.errors)+rangeidx+1 ==> at(p4Error.errors, i).GetCanonicalCode() == 6 || at(p4Error.errors, i).GetCanonicalCode() == 0
